@@ -83,7 +83,12 @@ def c_complement(chk, g, drv, jobs):
 # ------------------------------------------------------------------ timelines
 def gen_timeline(g):
     n = int(g.integers(2, 12))
-    cuts = sorted(set(int(x) * 2 ** 12 for x in g.integers(1, 2 ** 16, n)))
+    cuts = set(int(x) * 2 ** 12 for x in g.integers(1, 2 ** 16, n))
+    if g.uniform() < 0.4:
+        # two transitions a fraction of a millisecond apart (the satellite leaves the SAA as the target sets): a legitimate, if short, epoch
+        for c in list(g.choice(sorted(cuts), int(g.integers(1, 3)))):
+            cuts.add(int(c) + 2 * int(g.integers(1, 500)))
+    cuts = sorted(cuts)
     start, stop = cuts[0], cuts[-1]
     inner = cuts[1:-1]
     saa, occ = [], []
